@@ -135,8 +135,10 @@ func (c *caseRun) randomOp(nRemotes int) {
 		c.doRunFault()
 	case x < 96:
 		c.doCrash()
-	default:
+	case x < 98:
 		c.doRestart()
+	default:
+		c.doRestartRace(c.pick())
 	}
 }
 
@@ -196,6 +198,15 @@ func (c *caseRun) scenario(id int) {
 		c.doPut(1)
 		c.doFetch(1)
 		c.doHead(0)
+	case 12: // a deletion lands during space start, while the real head sync fills its index
+		c.doPut(0)
+		c.doEdit(0)
+		c.doPut(3)
+		c.doEdit(3)
+		c.doRestartRace(0)
+		c.doRun()
+		c.doEdit(3)
+		c.doRestart()
 	case 10: // legacy root-only entry without common snapshot: advertised by FillDiff, must leave the index when deleted
 		k := 3
 		if !c.legacyOK(k) {
@@ -259,9 +270,9 @@ func (c *caseRun) scenario(id int) {
 }
 
 func Run(r *corr.Run) {
-	r.SetRule("a case = a fresh space (real any-store) with 3..6 objects (some bound to a parent), 1..2 remote settings authors, and a sequence of 20..60 steps from {put, fetch, fstart/ffin, edit, head, rec (plain/snapshot), xfer, deliver (closed prefix / arbitrary subset, shuffled), del, run, runf (worker pass whose write transactions all fail), legacy (old-format heads entry appears), crash (worker pass cut after its first id, then restart), restart}; 12 scripted guard scenarios (legacy root-only heads entry deleted, storage-faulted worker pass + retry, fetch race, late child, restart between queued and deleted, snapshot root, tombstone before creation, deletion during a parked fetch, crash inside a worker pass, deletion landing right before the storage-creating transaction of a put / a fetch / a parked fetch's response) each continued randomly; non-trivial = a tombstone was reached; distinct = distinct model-protocol traces")
+	r.SetRule("a case = a fresh space (real any-store) with 3..6 objects (some bound to a parent), 1..2 remote settings authors, and a sequence of 20..60 steps from {put, fetch, fstart/ffin, edit, head, rec (plain/snapshot), xfer, deliver (closed prefix / arbitrary subset, shuffled), del, run, runf (worker pass whose write transactions all fail), legacy (old-format heads entry appears), crash (worker pass cut after its first id, then restart), restart}; 13 scripted guard scenarios (deletion landing during space start inside the real head sync's Run, legacy root-only heads entry deleted, storage-faulted worker pass + retry, fetch race, late child, restart between queued and deleted, snapshot root, tombstone before creation, deletion during a parked fetch, crash inside a worker pass, deletion landing right before the storage-creating transaction of a put / a fetch / a parked fetch's response) each continued randomly; non-trivial = a tombstone was reached; distinct = distinct model-protocol traces")
 	// scripted scenarios first (all parents variants relevant to them)
-	for _, id := range []int{10, 11, 7, 8, 9, 0, 1, 2, 3, 4, 5, 6} {
+	for _, id := range []int{12, 10, 11, 7, 8, 9, 0, 1, 2, 3, 4, 5, 6} {
 		if !r.TimeLeft() {
 			break
 		}
